@@ -298,6 +298,9 @@ class Builder:
             if names:
                 self.tags.add('const_shamt')
                 return ir.CRef(self.pick(names))
+        if self.chance(0.08):
+            self.tags.add('shamt_as_register_name')
+            return ir.ShamtReg(v)
         return ir.Lit(v)
 
     def insn_shift(self):
@@ -454,11 +457,11 @@ class Builder:
             return ir.Pack(fmt, self.lit_or_const(self.edgy(lo, hi)))
         if k == 3:
             n = self.i(1, 12)
-            if not self.p['odd_data']:
-                n = 2 * ((n + 1) // 2)
-            text = ''.join(self.pick('abcXYZ 019_-.,;:#"\'()[]{}=+*') for _ in range(n))
+            text = ''.join(self.pick('abcXYZ 019_-.,;:#"\'()[]{}=+*' + ('éß→日😀' if self.p.get('nonascii_strings', True) else '')) for _ in range(n))
             if text.strip() == '' or text[0] == ' ':
                 text = 'q' + text[1:]
+            if not self.p['odd_data'] and len(text.encode('utf-8')) % 2:
+                text += '!'
             return ir.Str(text)
         if k == 4:
             return ir.Gap(self.i(1, 64) * (1 if self.p['odd_data'] else 2))
